@@ -1295,6 +1295,10 @@ class CaseRunner:
             rec = fctx.float_records.get(ob.name)
             if not rec or not rec.get("violated"):
                 continue
+            if not (isinstance(rec.get("err"), float) and math.isfinite(rec["err"])):
+                # NaN / inf in the float run: the sample left the domain of the float stand-in (e.g. an inverted cell under the
+                # NeoHooke stand-in of an abstract material); that is not a witness of anything
+                continue
             env = dict(fctx.used_values)
             em = Emitter(norm)
             asserts = self._domain_asserts(em, assumptions)
@@ -1314,15 +1318,20 @@ class CaseRunner:
             # abstract (uninterpreted) atoms may take ANY value: pinning them to the values of the float-mode stand-in is sound
             # for a witness (a model with extra equalities is a model) and leaves the solver a ground problem + root atoms
             ufe = getattr(fctx, "uf_eval", None)
-            if ufe is not None:
-                for g in list(em.atom_done):
-                    node = norm.gen_info[g]["node"]
-                    if node.op == "uf":
-                        try:
-                            val = S.evalf(node, env, uf_eval=ufe)
-                            pins.append("(= %s %s)" % (norm.gen_name(g), smtq(Fraction(float(val)))))
-                        except (ValueError, ZeroDivisionError, OverflowError, KeyError, TypeError):
-                            pass
+            unpinned_uf = False
+            for g in list(em.atom_done):
+                node = norm.gen_info[g]["node"]
+                if node.op == "uf":
+                    try:
+                        val = float(S.evalf(node, env, uf_eval=ufe)) if ufe is not None else float("nan")
+                        if not math.isfinite(val):
+                            raise ValueError("non-finite stand-in value")
+                        pins.append("(= %s %s)" % (norm.gen_name(g), smtq(Fraction(val))))
+                    except (ValueError, ZeroDivisionError, OverflowError, KeyError, TypeError):
+                        unpinned_uf = True
+            if unpinned_uf:
+                # a free, unbounded abstract atom could be scaled until rounding-size coefficients exceed any tolerance: no witness
+                continue
             r = self.solve(em.script(asserts + pins), "z3", self.budget.cex_timeout)
             if r.status == "sat":
                 return {"entry": order[0], "model": env, "kind": "hinted"}
